@@ -1,12 +1,17 @@
 (* C02 System composition wires signals with the right orientation at any depth.
    Proved on the system model: import resolution (first matching directory, ambiguity, not
    found), argument binding and arity, orientation of a binding (equal when the stars agree,
-   reverse complement when they differ), instance prefixes of every emitted name.  The
-   recursion through nested systems is the model's load_file / emit_obj, tied to the code by
-   correspondence on generated libraries; the composed denotation is checked per case by the
-   specification oracle expected_system_den. *)
+   reverse complement when they differ); whatever load_file returns for an instance, at any
+   nesting depth, is well prefixed by that instance's path prefix and every signal entry names a
+   component instance of its own system (C02_load_well_prefixed); every name the emitted
+   specification defines or mentions for an object loaded under prefix p -- sequences, strands,
+   structures, kinetics and the signal / equal lines -- starts with p (C02_emitted_names_prefixed);
+   names of two different instances of one system never coincide (C02_instances_disjoint), so
+   instances share nothing except through the signal lines of their parent.  The composed
+   denotation (which port equals which signal, with which orientation, through nested systems)
+   is additionally checked per case by the specification oracle expected_system_den. *)
 From Coq Require Import List String Ascii Arith Bool ZArith.
-From PC Require Import Base.Sexp Comp.Syntax Comp.Compile Comp.Denote Comp.EmitProofs Subst.VarSubst Sys.System Sys.SystemProofs.
+From PC Require Import Base.Sexp Comp.Syntax Comp.Compile Comp.Denote Comp.EmitProofs Subst.VarSubst Sys.System Sys.SystemProofs Sys.PrefixProofs.
 Import ListNotations.
 
 Theorem C02_import_first_match : forall fs b paths,
@@ -49,3 +54,18 @@ Print Assumptions C02_instance_names_prefixed.
 Theorem C02_compile_keeps_prefix : forall ctr prefix d body c ctr', compile_comp ctr prefix d body = OK (c, ctr') -> c_prefix c = prefix.
 Proof. exact compile_comp_prefix. Qed.
 Print Assumptions C02_compile_keeps_prefix.
+
+Theorem C02_load_well_prefixed : forall fs includes fuel ctr b args prefix path o ctr',
+  load_file fs includes fuel ctr b args prefix path = OK (o, ctr') -> wp prefix o.
+Proof. exact load_file_wp. Qed.
+Print Assumptions C02_load_well_prefixed.
+
+Theorem C02_emitted_names_prefixed : forall fuel p o, wp p o -> forall l n, In l (emit_obj fuel o) -> In n (all_names l) ->
+  exists m, n = p +++ m.
+Proof. exact emit_obj_prefixed. Qed.
+Print Assumptions C02_emitted_names_prefixed.
+
+Theorem C02_instances_disjoint : forall p cn1 cn2 m1 m2, no_dash cn1 -> no_dash cn2 -> cn1 <> cn2 ->
+  (p +++ cn1 +++ "-") +++ m1 <> (p +++ cn2 +++ "-") +++ m2.
+Proof. exact instances_disjoint. Qed.
+Print Assumptions C02_instances_disjoint.
